@@ -18,14 +18,14 @@ RESERVED_VARS = ["C#CNF#1", "a#CNF#", "C#CNF#2", "#STARTUNION#", "S#SUBS#0", "A#
 
 
 def gen_cfg(rng, max_vars=4, max_terms=3, max_prods=7, max_body=4, profile=None, strings_only=False,
-            reserved=False):
+            reserved=False, reserved_pool=None):
     profile = profile or rng.weighted([("random", 10), ("suffix", 2), ("unit_cycle", 2), ("nullable_chain", 2),
                                        ("clean", 2), ("self_unit", 1), ("empty_lang", 1)])
     nv = rng.randint(1, max_vars)
     nt = rng.randint(1, max_terms)
     vs = VARS[:nv]
     if reserved and rng.chance(0.5):
-        vs = vs[:max(1, nv - 1)] + [rng.pick(RESERVED_VARS)]
+        vs = vs[:max(1, nv - 1)] + [rng.pick(reserved_pool or RESERVED_VARS)]
     ts = TERMS[:nt]
     prods = []
 
@@ -45,6 +45,22 @@ def gen_cfg(rng, max_vars=4, max_terms=3, max_prods=7, max_body=4, profile=None,
             add(rng.pick(vs), [rng.pick(vs + ts)] + suf)
         if rng.chance(0.5):
             add(rng.pick(vs), [rng.pick(vs + ts), rng.pick(vs + ts)] + suf)
+        if rng.chance(0.5):
+            # further long bodies, so that fresh C#CNF#n names are handed out after a suffix-cache hit
+            for _ in range(rng.randint(1, 2)):
+                add(rng.pick(vs), [rng.pick(vs + ts) for _ in range(rng.randint(3, 4))])
+    elif profile == "cnf_names":
+        # a user variable spelled like a fresh C#CNF#n name, a long body that stops on a shared suffix, and a later
+        # long body: the fresh-name bookkeeping of the binarisation is what is exercised
+        k = rng.pick(["C#CNF#1", "C#CNF#2", "C#CNF#2", "C#CNF#3"])
+        vs = [vs[0], k]
+        add(k, [rng.pick(ts)])
+        add(vs[0], [k, k])
+        suf = [rng.pick(ts) for _ in range(2)]
+        add(vs[0], [rng.pick(ts)] + suf)
+        add(vs[0], [rng.pick(ts), rng.pick(ts)] + suf)
+        for _ in range(rng.randint(1, 2)):
+            add(vs[0], [rng.pick(ts) for _ in range(rng.randint(3, 4))])
     elif profile == "unit_cycle":
         k = rng.randint(1, len(vs))
         cyc = rng.sample(vs, k)
@@ -69,7 +85,7 @@ def gen_cfg(rng, max_vars=4, max_terms=3, max_prods=7, max_body=4, profile=None,
         if rng.chance(0.3):
             v = rng.pick(vs)
             add(v, [v])
-    n_extra = rng.randint(0, max_prods) if profile != "clean" else rng.randint(0, 1)
+    n_extra = rng.randint(0, max_prods) if profile not in ("clean", "cnf_names") else rng.randint(0, 1)
     pv = rng.pick([0.3, 0.5, 0.7])
     for _ in range(n_extra):
         if len(prods) >= max_prods + 2:
@@ -93,6 +109,8 @@ def gen_cfg(rng, max_vars=4, max_terms=3, max_prods=7, max_body=4, profile=None,
 # ---------------------------------------------------------------------------
 
 def val(case, name):
+    # "alias": a variable whose *value* is spelled like a terminal's (they stay different grammar symbols)
+    name = (case.get("alias") or {}).get(name, name)
     if case["valmode"] == "V":
         h = case["hash"].get("N:" + name)
         if h is None:
